@@ -127,8 +127,77 @@ def tasks(tier, seed):
                             chunk, est = [], 0
                     if chunk:
                         ts.append(_mk(ndim, inner, r, c, tier, seed, chunk, est))
+    for k in range(4 if tier == 'quick' else 16):
+        ts.append({'harness': 'translator-validation', 'part': k, 'tier': tier, 'seed': seed, 'est': 300})
     ts.sort(key=lambda t: -t['est'])
     return ts
+
+
+def _translator_validation(cfg):
+    """concrete traces: the IR interpreter vs. the library compiled from the same sources (bit-equal doubles)"""
+    import math
+    from engine import irsym, native, validate
+    irmod = irsym.module()
+    rnd = random.Random(cfg['seed'] * 104729 + cfg['part'])
+    stats = smt.Stats()
+    bad, n = [], 0
+    ex = Explorer([], stats=stats)
+    for _ in range(40):
+        ndim = rnd.choice((1, 1, 2))
+        r, c = rnd.randint(1, 6), rnd.randint(1, 6)
+        s1 = [rnd.choice((-2.0, -1.0, -0.5, 0.0, 0.3, 0.5, 1.0, 1.7, 3.0)) for _ in range(r * ndim)]
+        s2 = [rnd.choice((-2.0, -1.0, -0.5, 0.0, 0.3, 0.5, 1.0, 1.7, 3.0)) for _ in range(c * ndim)]
+        kw = {}
+        if rnd.random() < .5:
+            kw['window'] = rnd.randint(1, 5)
+        if rnd.random() < .4:
+            kw['penalty'] = rnd.choice([0.3, 1.0, 2.0])
+        if rnd.random() < .4:
+            kw.update(psi_1b=rnd.randint(0, min(2, r)), psi_1e=rnd.randint(0, min(2, r)), psi_2b=rnd.randint(0, min(2, c)), psi_2e=rnd.randint(0, min(2, c)))
+        if rnd.random() < .3:
+            kw['max_step'] = rnd.choice([1.5, 3.0])
+        if rnd.random() < .3:
+            kw['max_dist'] = rnd.choice([2.0, 5.0])
+        if rnd.random() < .2:
+            kw['use_pruning'] = True
+        if rnd.random() < .3:
+            kw['inner_dist'] = 1
+        if rnd.random() < .2:
+            kw['max_length_diff'] = rnd.randint(0, 2)
+        fn = rnd.choice(['dtw_distance', 'dtw_distance', 'lb_keogh', 'ub_euclidean'])
+        L = native.lib()
+        a, b = native.Fenced(s1), native.Fenced(s2)
+        st = native.settings(dict(irsym.SETTINGS_DEFAULT, **kw))
+        import ctypes
+        if fn == 'dtw_distance':
+            real = L.dtw_distance(a.ptr, r, b.ptr, c, ctypes.byref(st)) if ndim == 1 else L.dtw_distance_ndim(a.ptr, r, b.ptr, c, ndim, ctypes.byref(st))
+        elif fn == 'lb_keogh':
+            if ndim != 1:
+                continue
+            real = L.lb_keogh(a.ptr, r, b.ptr, c, ctypes.byref(st))
+        else:
+            real = L.ub_euclidean(a.ptr, r, b.ptr, c) if ndim == 1 else L.ub_euclidean_ndim(a.ptr, r, b.ptr, c, ndim)
+
+        def go():
+            M = irsym.Machine(irmod)
+            p1, p2, sp = M.new_doubles('s1', s1), M.new_doubles('s2', s2), irsym.mk_settings(M, **kw)
+            if fn == 'dtw_distance':
+                return M.run('dtw_distance', [p1, r, p2, c, sp]) if ndim == 1 else M.run('dtw_distance_ndim', [p1, r, p2, c, ndim, sp])
+            if fn == 'lb_keogh':
+                return M.run('lb_keogh', [p1, r, p2, c, sp])
+            return M.run('ub_euclidean', [p1, r, p2, c]) if ndim == 1 else M.run('ub_euclidean_ndim', [p1, r, p2, c, ndim])
+        res = list(ex.explore(go))
+        got = res[0].result if (len(res) == 1 and res[0].exc is None) else repr([p.exc for p in res])
+        n += 1
+        ok = isinstance(got, float) and (got == real or (math.isnan(got) and math.isnan(real)))
+        if not ok or not (a.intact() and b.intact()):
+            bad.append({'fn': fn, 'ndim': ndim, 's1': s1, 's2': s2, 'kw': kw, 'interpreter': str(got)[:120], 'native': real})
+    if bad:
+        raise RuntimeError('translator validation: IR interpreter and compiled library disagree on %d of %d concrete calls, e.g. %r' % (len(bad), n, bad[0]))
+    stats.queries += n
+    stats.unsat += n
+    return {'stats': stats.as_dict(), 'cex': [], 'inconclusive': 0, 'validated': n,
+            'sample': {'harness': cfg['harness'], 'traces': n, 'routines': ['dtw_distance', 'dtw_distance_ndim', 'lb_keogh', 'ub_euclidean(_ndim)'], 'comparison': 'bit-equal doubles'}}
 
 
 def _mk(ndim, inner, r, c, tier, seed, chunk, est):
@@ -189,6 +258,8 @@ def engines_differ(py, cc, sq):
 
 def run_task(cfg):
     from engine import irsym
+    if cfg['harness'] == 'translator-validation':
+        return _translator_validation(cfg)
     dtw, innerdistance, ed = dtwh.load('dtw', 'innerdistance', 'ed')
     irmod = irsym.module()
     ndim, r, c = cfg['ndim'], cfg['r'], cfg['c']
